@@ -88,12 +88,11 @@ theorem step_recs_none (cfg : Cfg N K) (l : Label N K) (s : St N K) (m : N) (k :
   · rename_i hen
     cases l with
     | rsend src dst batch ok =>
-      simp only [enabled, decide_eq_true_eq, Bool.and_eq_true, List.all_eq_true, Bool.decide_and] at hen
+      obtain ⟨_, _, _, hb⟩ := rsend_enabled hen
       simp only [apply]
       split
       · rename_i hc
-        have := hen.2 k hc.2
-        exact absurd (hc.1.trans this.1.symm) hm
+        exact absurd (hc.1.trans (hb k hc.2).1.symm) hm
       · exact h
     | rdelete src batch => simp only [apply]; split <;> simp [h]
     | fchunk src k' cor => simp only [apply]; split <;> exact h
@@ -165,6 +164,7 @@ theorem StepsBy.files_none {cfg : Cfg N K} {a : N} {s t : St N K} (h : StepsBy c
 
 theorem step_fchunk_eq (cfg : Cfg N K) (s : St N K) (n : N) (k : K) (c : Content) (i : Nat)
     (hf : s.files n k = some c) (hp : progress (s.fph n k) = some i) (hne : n ≠ cfg.fowner k)
+    (hus : cfg.up n = true) (huo : cfg.up (cfg.fowner k) = true)
     (hi : i < (chunks cfg.cs c).length) (cor : Option Content) :
     step cfg (.fchunk n k cor) s =
       { s with files := upd s.files (cfg.fowner k) k
@@ -172,11 +172,12 @@ theorem step_fchunk_eq (cfg : Cfg N K) (s : St N K) (n : N) (k : K) (c : Content
                fph := upd s.fph n k (.sending (i + 1)) } := by
   unfold step
   simp only [enabled, apply, hf, hp]
-  simp [hne, hi]
+  simp [hne, hi, hus, huo]
 
 theorem step_ffinal_eq (cfg : Cfg N K) (s : St N K) (n : N) (k : K) (c : Content)
     (hf : s.files n k = some c) (hp : progress (s.fph n k) = some (chunks cfg.cs c).length)
-    (hne : n ≠ cfg.fowner k) (hpos : 0 < (chunks cfg.cs c).length)
+    (hne : n ≠ cfg.fowner k) (hus : cfg.up n = true) (huo : cfg.up (cfg.fowner k) = true)
+    (hpos : 0 < (chunks cfg.cs c).length)
     (hd : s.files (cfg.fowner k) k = some c) :
     step cfg (.ffinal n k) s =
       { s with files := upd s.files (cfg.fowner k) k (some c), fph := upd s.fph n k .confirmed } := by
@@ -185,7 +186,7 @@ theorem step_ffinal_eq (cfg : Cfg N K) (s : St N K) (n : N) (k : K) (c : Content
   have hw : recvWrite cfg.trunc0 (some c) (chunks cfg.cs c).length [] = c := by
     unfold recvWrite
     rw [if_neg (by rintro ⟨h, _⟩; omega)]; simp
-  simp [hne, hd, hw, replySum, hpos]
+  simp [hne, hd, hw, replySum, hpos, hus, huo]
 
 theorem step_fremove_eq (cfg : Cfg N K) (s : St N K) (n : N) (k : K) (hp : s.fph n k = .confirmed) :
     step cfg (.fremove n k) s = { s with files := upd s.files n k none, fph := upd s.fph n k .idle } := by
@@ -213,7 +214,7 @@ structure Sent (cfg : Cfg N K) (n : N) (k : K) (s s' : St N K) : Prop where
   steps  : StepsBy cfg n s s'
 
 theorem sendFrom_spec (cfg : Cfg N K) (htr : cfg.trunc0 = true) (hcs : 0 < cfg.cs) (n : N) (k : K) (c : Content)
-    (hne : n ≠ cfg.fowner k) (hc : c ≠ []) :
+    (hne : n ≠ cfg.fowner k) (hus : cfg.up n = true) (huo : cfg.up (cfg.fowner k) = true) (hc : c ≠ []) :
     ∀ (fuel i : Nat) (s : St N K), i + fuel = (chunks cfg.cs c).length → Sending cfg n k c i s →
       Sent cfg n k s (sendFrom cfg noFault n k fuel i s) := by
   have hpos : 0 < (chunks cfg.cs c).length := (chunks_length_pos _ _).mpr hc
@@ -227,11 +228,11 @@ theorem sendFrom_spec (cfg : Cfg N K) (htr : cfg.trunc0 = true) (hcs : 0 < cfg.c
       rw [hS.dst hpos, List.take_length, chunks_flatten _ hcs]
     simp only [sendFrom]
     rw [if_neg (by simp [noFault])]
-    rw [step_ffinal_eq cfg s n k c hS.file hS.prog hne hpos hd]
+    rw [step_ffinal_eq cfg s n k c hS.file hS.prog hne hus huo hpos hd]
     rw [step_fremove_eq _ _ _ _ (by simp [upd])]
     refine ⟨by simp [upd], hS.ok, by simp [upd], ?_, ?_⟩
     · intro k' hk'; simp [upd, hk']
-    · have e1 := step_ffinal_eq cfg s n k c hS.file hS.prog hne hpos hd
+    · have e1 := step_ffinal_eq cfg s n k c hS.file hS.prog hne hus huo hpos hd
       have h1 : StepsBy cfg n s _ := StepsBy.one (cfg := cfg) s (.ffinal n k) rfl
       rw [e1] at h1
       have h2 := StepsBy.one (cfg := cfg) (a := n)
@@ -245,7 +246,7 @@ theorem sendFrom_spec (cfg : Cfg N K) (htr : cfg.trunc0 = true) (hcs : 0 < cfg.c
     rw [if_neg (by simp [noFault])]
     have hcor : corruptFor (noFault : Fault N K) k i = none := rfl
     rw [hcor]
-    have e := step_fchunk_eq cfg s n k c i hS.file hS.prog hne hlt none
+    have e := step_fchunk_eq cfg s n k c i hS.file hS.prog hne hus huo hlt none
     have h1 : StepsBy cfg n s (step cfg (.fchunk n k none) s) := StepsBy.one (cfg := cfg) s (.fchunk n k none) rfl
     have hS' : Sending cfg n k c (i + 1) (step cfg (.fchunk n k none) s) := by
       rw [e]
@@ -280,8 +281,10 @@ structure Good (cfg : Cfg N K) (fo : K → Option Content) : Prop where
   cs_pos : 0 < cfg.cs
   trunc : cfg.trunc0 = true
   nonempty : ∀ k c, fo k = some c → c ≠ []
+  /-- the routing owner of every shard runs (it is a member of the server list) -/
+  fdst : ∀ k, (fo k).isSome → cfg.up (cfg.fowner k) = true
 
-theorem syncFile_spec {cfg : Cfg N K} {ro fo} (hg : Good cfg fo) (n : N) (k : K) (s : St N K)
+theorem syncFile_spec {cfg : Cfg N K} {ro fo} (hg : Good cfg fo) (n : N) (hun : cfg.up n = true) (k : K) (s : St N K)
     (hinv : Inv cfg ro fo s) (hr : Ready n s) :
     Ready n (syncFile cfg noFault n k s) ∧ StepsBy cfg n s (syncFile cfg noFault n k s) ∧
       (n ≠ cfg.fowner k → (syncFile cfg noFault n k s).files n k = none) := by
@@ -295,18 +298,19 @@ theorem syncFile_spec {cfg : Cfg N K} {ro fo} (hg : Good cfg fo) (n : N) (k : K)
       exact ⟨hr, .refl s, fun _ => hnone⟩
     · rename_i c hc
       have hne : n ≠ cfg.fowner k := fun e => ho e.symm
-      have hfo := hinv.f1 n k c hc hne
+      have hfo := hinv.f1 n k c hun hne hc
       have hcne := hg.nonempty k c hfo
-      rw [if_neg (by simp [noFault])]
+      have huo : cfg.up (cfg.fowner k) = true := hg.fdst k (by rw [hfo]; rfl)
+      rw [if_neg (by simp [noFault, huo])]
       have hS : Sending cfg n k c 0 s := ⟨hc, by rw [hr.idle k]; rfl, fun h => absurd h (Nat.lt_irrefl 0), hr.ok⟩
-      have r := sendFrom_spec cfg hg.trunc hg.cs_pos n k c hne hcne (chunks cfg.cs c).length 0 s (by omega) hS
+      have r := sendFrom_spec cfg hg.trunc hg.cs_pos n k c hne hun huo hcne (chunks cfg.cs c).length 0 s (by omega) hS
       refine ⟨⟨r.ok, ?_⟩, r.steps, fun _ => r.gone⟩
       intro k'
       by_cases hk : k' = k
       · subst hk; exact r.idle
       · rw [r.others k' hk]; exact hr.idle k'
 
-theorem syncFiles_spec {cfg : Cfg N K} {ro fo} (hg : Good cfg fo) (n : N) :
+theorem syncFiles_spec {cfg : Cfg N K} {ro fo} (hg : Good cfg fo) (n : N) (hun : cfg.up n = true) :
     ∀ (fkeys : List K) (s : St N K), Inv cfg ro fo s → Ready n s →
       let s' := fkeys.foldl (fun s k => syncFile cfg noFault n k s) s
       Ready n s' ∧ StepsBy cfg n s s' ∧ ∀ k ∈ fkeys, n ≠ cfg.fowner k → s'.files n k = none := by
@@ -316,7 +320,7 @@ theorem syncFiles_spec {cfg : Cfg N K} {ro fo} (hg : Good cfg fo) (n : N) :
   | cons k ks ih =>
     intro s hinv hr
     simp only [List.foldl_cons]
-    obtain ⟨a1, a2, a3⟩ := syncFile_spec hg n k s hinv hr
+    obtain ⟨a1, a2, a3⟩ := syncFile_spec hg n hun k s hinv hr
     obtain ⟨b1, b2, b3⟩ := ih _ (a2.inv hg.sum hinv) a1
     refine ⟨b1, a2.trans b2, ?_⟩
     intro k' hk' hne
@@ -325,12 +329,12 @@ theorem syncFiles_spec {cfg : Cfg N K} {ro fo} (hg : Good cfg fo) (n : N) :
     · exact b3 k' e hne
 
 theorem step_rsend_eq (cfg : Cfg N K) (s : St N K) (src dst : N) (batch : List K) (ok : Bool)
-    (hne : src ≠ dst) (hb : ∀ k ∈ batch, cfg.owner k = dst ∧ (s.recs src k).isSome) :
+    (hus : cfg.up src = true) (hud : cfg.up dst = true) (hne : src ≠ dst) (hb : ∀ k ∈ batch, cfg.owner k = dst ∧ (s.recs src k).isSome) :
     step cfg (.rsend src dst batch ok) s = apply cfg s (.rsend src dst batch ok) := by
   unfold step
   rw [if_pos]
   simp only [enabled, decide_eq_true_eq, Bool.and_eq_true, List.all_eq_true, Bool.decide_and]
-  exact ⟨hne, fun k hk => by simpa using hb k hk⟩
+  exact ⟨hus, hud, hne, fun k hk => by simpa using hb k hk⟩
 
 theorem step_rdelete_eq (cfg : Cfg N K) (s : St N K) (src : N) (batch : List K)
     (hb : ∀ k ∈ batch, s.rconf src k = true) :
@@ -340,7 +344,8 @@ theorem step_rdelete_eq (cfg : Cfg N K) (s : St N K) (src : N) (batch : List K)
   simp only [enabled, List.all_eq_true]
   exact hb
 
-theorem syncRecsTo_spec (cfg : Cfg N K) (rkeys : List K) (n dst : N) (s : St N K) (hr : Ready n s) :
+theorem syncRecsTo_spec (cfg : Cfg N K) (rkeys : List K) (n dst : N) (hun : cfg.up n = true)
+    (hud : cfg.up dst = true) (s : St N K) (hr : Ready n s) :
     Ready n (syncRecsTo cfg noFault rkeys n dst s) ∧ StepsBy cfg n s (syncRecsTo cfg noFault rkeys n dst s) ∧
       (∀ k ∈ rkeys, cfg.owner k = dst → dst ≠ n → (syncRecsTo cfg noFault rkeys n dst s).recs n k = none) := by
   unfold syncRecsTo
@@ -362,9 +367,9 @@ theorem syncRecsTo_spec (cfg : Cfg N K) (rkeys : List K) (n dst : N) (s : St N K
       rw [hmem] at this
       have : ¬ (s.recs n k).isSome := fun h => this ⟨hk, ho, h⟩
       simpa using this
-    · rw [if_neg he, if_neg (by simp [noFault]), if_neg (by simp [noFault])]
+    · rw [if_neg he, if_neg (by simp [noFault, hud]), if_neg (by simp [noFault])]
       have hb1 : ∀ k ∈ batch, cfg.owner k = dst ∧ (s.recs n k).isSome := fun k hk => ((hmem k).mp hk).2
-      have e1 := step_rsend_eq cfg s n dst batch true (fun e => hd e.symm) hb1
+      have e1 := step_rsend_eq cfg s n dst batch true hun hud (fun e => hd e.symm) hb1
       have hb2 : ∀ k ∈ batch, (step cfg (.rsend n dst batch true) s).rconf n k = true := by
         intro k hk; rw [e1]; simp [apply, hk]
       have e2 := step_rdelete_eq cfg _ n batch hb2
@@ -385,19 +390,19 @@ theorem syncRecsTo_spec (cfg : Cfg N K) (rkeys : List K) (n dst : N) (s : St N K
           have : ¬ (s.recs n k).isSome := fun h => hkb ((hmem k).mpr ⟨hk, ho, h⟩)
           simpa using this
 
-theorem syncRecs_spec (cfg : Cfg N K) (rkeys : List K) (n : N) :
-    ∀ (nodes : List N) (s : St N K), Ready n s →
+theorem syncRecs_spec (cfg : Cfg N K) (rkeys : List K) (n : N) (hun : cfg.up n = true) :
+    ∀ (nodes : List N) (s : St N K), (∀ d ∈ nodes, cfg.up d = true) → Ready n s →
       let s' := nodes.foldl (fun s dst => syncRecsTo cfg noFault rkeys n dst s) s
       Ready n s' ∧ StepsBy cfg n s s' ∧
         ∀ k ∈ rkeys, cfg.owner k ∈ nodes → n ≠ cfg.owner k → s'.recs n k = none := by
   intro nodes
   induction nodes with
-  | nil => intro s hr; exact ⟨hr, .refl s, by simp⟩
+  | nil => intro s _ hr; exact ⟨hr, .refl s, by simp⟩
   | cons d ds ih =>
-    intro s hr
+    intro s hup hr
     simp only [List.foldl_cons]
-    obtain ⟨a1, a2, a3⟩ := syncRecsTo_spec cfg rkeys n d s hr
-    obtain ⟨b1, b2, b3⟩ := ih _ a1
+    obtain ⟨a1, a2, a3⟩ := syncRecsTo_spec cfg rkeys n d hun (hup d List.mem_cons_self) s hr
+    obtain ⟨b1, b2, b3⟩ := ih _ (fun d' hd' => hup d' (List.mem_cons_of_mem _ hd')) a1
     refine ⟨b1, a2.trans b2, ?_⟩
     intro k hk ho hne
     rcases List.mem_cons.mp ho with e | e
@@ -416,6 +421,8 @@ structure Covers (cfg : Cfg N K) (ro fo : K → Option Content) (nodes : List N)
   rk : ∀ k, (ro k).isSome → k ∈ rkeys
   fk : ∀ k, (fo k).isSome → k ∈ fkeys
   dst : ∀ k, (ro k).isSome → cfg.owner k ∈ nodes
+  /-- every member of the server list runs -/
+  up : ∀ d ∈ nodes, cfg.up d = true
 
 theorem syncNode_noFault_eq (cfg : Cfg N K) (nodes : List N) (rkeys fkeys : List K) (n : N) (s : St N K) :
     syncNode cfg noFault nodes rkeys fkeys n s =
@@ -424,36 +431,36 @@ theorem syncNode_noFault_eq (cfg : Cfg N K) (nodes : List N) (rkeys fkeys : List
   simp [syncNode, noFault]
 
 theorem syncNode_spec {cfg : Cfg N K} {ro fo} (hg : Good cfg fo) {nodes : List N} {rkeys fkeys : List K}
-    (hcov : Covers cfg ro fo nodes rkeys fkeys) (n : N) (s : St N K) (hinv : Inv cfg ro fo s) :
+    (hcov : Covers cfg ro fo nodes rkeys fkeys) (n : N) (hun : cfg.up n = true) (s : St N K) (hinv : Inv cfg ro fo s) :
     NodeDone cfg n s (syncNode cfg noFault nodes rkeys fkeys n s) := by
   rw [syncNode_noFault_eq]
   have h0 : StepsBy cfg n s (step cfg (.restart n) s) := StepsBy.one (cfg := cfg) s (.restart n) rfl
   have hr0 : Ready n (step cfg (.restart n) s) := by
     constructor <;> simp [step, enabled, apply, clearVolatile]
-  obtain ⟨a1, a2, a3⟩ := syncRecs_spec cfg rkeys n nodes _ hr0
+  obtain ⟨a1, a2, a3⟩ := syncRecs_spec cfg rkeys n hun nodes _ hcov.up hr0
   generalize hs1 : nodes.foldl (fun s dst => syncRecsTo cfg noFault rkeys n dst s) (step cfg (.restart n) s) = s1 at a1 a2 a3 ⊢
   have hinv1 : Inv cfg ro fo s1 := (h0.trans a2).inv hg.sum hinv
-  obtain ⟨b1, b2, b3⟩ := syncFiles_spec hg n fkeys s1 hinv1 a1
+  obtain ⟨b1, b2, b3⟩ := syncFiles_spec hg n hun fkeys s1 hinv1 a1
   refine ⟨b1.ok, ?_, ?_, (h0.trans a2).trans b2⟩
   · intro k hne
     apply b2.recs_none n k hne
     cases hk : s.recs n k with
     | none => exact (h0.trans a2).recs_none n k hne hk
     | some v =>
-      have hro : (ro k).isSome := by rw [hinv.r1 n k v hk]; rfl
+      have hro : (ro k).isSome := by rw [hinv.r1 n k v hun hne hk]; rfl
       exact a3 k (hcov.rk k hro) (hcov.dst k hro) hne
   · intro k hne
     cases hk : s.files n k with
     | none => exact ((h0.trans a2).trans b2).files_none n k hne hk
     | some c =>
-      have hfo : (fo k).isSome := hinv.f5 n k (by rw [hk]; rfl)
+      have hfo : (fo k).isSome := by rw [hinv.f1 n k c hun hne hk]; rfl
       exact b3 k (hcov.fk k hfo) hne
 
 /-- a failure-free round: every node that ran `Sync` holds nothing it does not own and did not
 fail; entries outside the owner are never created -/
 theorem round_spec {cfg : Cfg N K} {ro fo} (hg : Good cfg fo) {nodes : List N} {rkeys fkeys : List K}
     (hcov : Covers cfg ro fo nodes rkeys fkeys) (s0 : St N K) (h0 : Inv cfg ro fo s0) :
-    ∀ (order : List N) (s : St N K), Reachable cfg s0 s →
+    ∀ (order : List N) (s : St N K), (∀ n ∈ order, cfg.up n = true) → Reachable cfg s0 s →
       Reachable cfg s0 (round cfg nodes rkeys fkeys order s) ∧
       (∀ n ∈ order, (round cfg nodes rkeys fkeys order s).failed n = false ∧
           (∀ k, n ≠ cfg.owner k → (round cfg nodes rkeys fkeys order s).recs n k = none) ∧
@@ -463,13 +470,13 @@ theorem round_spec {cfg : Cfg N K} {ro fo} (hg : Good cfg fo) {nodes : List N} {
       (∀ m, m ∉ order → (round cfg nodes rkeys fkeys order s).failed m = s.failed m) := by
   intro order
   induction order with
-  | nil => intro s hr; exact ⟨hr, by simp, fun _ _ _ h => h, fun _ _ _ h => h, fun _ _ => rfl⟩
+  | nil => intro s _ hr; exact ⟨hr, by simp, fun _ _ _ h => h, fun _ _ _ h => h, fun _ _ => rfl⟩
   | cons n ns ih =>
-    intro s hr
+    intro s hup hr
     have hinv : Inv cfg ro fo s := inv_reachable hg.sum h0 hr
-    have d := syncNode_spec hg hcov n s hinv
+    have d := syncNode_spec hg hcov n (hup n List.mem_cons_self) s hinv
     have hrt := d.steps.reachable hr
-    obtain ⟨r1, r2, r3, r4, r5⟩ := ih _ hrt
+    obtain ⟨r1, r2, r3, r4, r5⟩ := ih _ (fun m hm => hup m (List.mem_cons_of_mem _ hm)) hrt
     have e : round cfg nodes rkeys fkeys (n :: ns) s =
         round cfg nodes rkeys fkeys ns (syncNode cfg noFault nodes rkeys fkeys n s) := rfl
     rw [e]
